@@ -17,7 +17,9 @@ inductive Decl where
   /-- `cbuffer` with optional explicit bind group (`lang_binding.set`) -/
   | cbuffer (set : Option Nat)
   /-- global variable: explicit group, has a static sampler initialiser, the object kind left after
-      peeling modifier / one array layer / modifier (`none` = not an object), array length -/
+      peeling modifier / one array layer / modifier, array length.  `kind = none` stands for every
+      global `process_definition` leaves alone: a non-object type, or (since fix "do not allocate binding
+      slots for static or groupshared globals") a global whose storage class is not `Extern` -/
   | global (set : Option Nat) (staticSampler : Bool) (kind : Option ObjKind) (len : Option Nat)
   deriving DecidableEq, Repr, Inhabited
 
